@@ -13,6 +13,12 @@ gen_case shapes (all plain JSON, shrinkable by deleting list elements):
          a text whose edges / interior carry decoration characters (names of DECOR below):
          text = pre + tok + (mid + tok' if mid is not None) + suf; plain kinds: the file IS the encoded text (raw bytes, no
          writer in between: c05.<kind>); eml / mbox: the text is the text/plain body (base64, utf-8) of a one-part message.
+    {"fmt": "hdr", "kind": "eml" | "mbox", "devs": [[header, position, spelling], ...], "tok": [tok, tok'], "le": "lf" | "crlf"}
+         a raw one-part message (HDR_BASE below; multipart/mixed with one attachment part as soon as a "part:" header deviates)
+         written byte by byte (no writer, no validation in between) in which every listed header carries, at the named
+         position of its value (HDR_POS), the token in the named wire spelling (HDR_SPELL: ascii, raw 8-bit bytes, RFC 2047
+         encoded-words good and bad, folded, empty, NUL, marker string); the pseudo positions "absent" / "twice" delete /
+         repeat the header. See header_cases().
 A mail attachment {"filename", "ctype", "gen": gen_case} is rendered and put into the spec as data_hex.
 """
 from __future__ import annotations
@@ -334,6 +340,161 @@ def edge_cases(tier, seed):
     return out
 
 
+
+# ----------------------------------------------------------------------------------------------- header spellings
+
+# Everything a mail reader copies out of a message header is produced by a third-party parser (email / mailparser), whose
+# return type and content depend on the WIRE SPELLING of the value (compat32 gives an email.header.Header object, not a str,
+# for a value with raw 8-bit bytes; encoded-words may not decode; folded values keep line breaks ...). The family below puts
+# one token in every spelling at every syntactic position of every header the readers look at.
+HDR_ADDRESS = ["From", "To", "Cc", "Bcc", "Reply-To"]
+_ADDR_POS = [("name", "{} <a1@verif.example>"), ("qname", '"{}" <a1@verif.example>'), ("local", "<{}@verif.example>"),
+             ("bare", "{}@verif.example"), ("domain", "<a1@{}.example>")]
+HDR_POS = dict(
+    [("Subject", [("value", "{}")])] + [(h, list(_ADDR_POS)) for h in HDR_ADDRESS] +
+    [("Message-ID", [("id", "<{}.1@verif.example>"), ("raw", "{}")]), ("In-Reply-To", [("id", "<{}.1@verif.example>"), ("raw", "{}")]),
+     ("Date", [("comment", "Tue, 05 Mar 2024 14:07:09 +0000 ({})"), ("raw", "{}")]),
+     ("Content-Type", [("charset", 'text/plain; charset="{}"'), ("name", 'text/plain; charset=utf-8; name="{}"')]),
+     ("Content-Disposition", [("filename", 'inline; filename="{}"')]),
+     ("part:Content-Type", [("name", 'application/octet-stream; name="{}"')]),
+     ("part:Content-Disposition", [("filename", 'attachment; filename="{}"')])])
+HDR_NAMES = list(HDR_POS)
+HDR_SPELL = ["ascii", "latin1", "utf8", "bad8", "ew-b", "ew-q", "ew-unk", "ew-bad", "ew-surr", "fold", "empty", "nul", "marker"]
+HDR_PSEUDO = ["absent", "twice"]          # header-level deviations (position None)
+HDR_PAIR_SPELL = ["latin1", "fold"]       # thorough: two headers deviating at once
+HDR_BASE = [("From", "Nsender <sender@verif.example>"), ("To", "<rcpt@verif.example>"), ("Subject", "Hsubjct"),
+            ("Date", "Tue, 05 Mar 2024 14:07:09 +0000"), ("Message-ID", "<base.1@verif.example>"), ("MIME-Version", "1.0"),
+            ("Content-Type", "text/plain; charset=utf-8"), ("Content-Transfer-Encoding", "7bit")]
+_HDR_PART_BASE = [("Content-Type", "application/octet-stream; name=\"base.bin\""), ("Content-Disposition", "attachment; filename=\"base.bin\""),
+                  ("Content-Transfer-Encoding", "base64")]
+
+
+def hdr_spelling(sp, tok, le):
+    """wire bytes of the token pair `tok` in spelling `sp`"""
+    import base64
+    a, b = tok[0].encode("ascii"), tok[1].encode("ascii")
+    if sp == "ascii":
+        return a
+    if sp == "latin1":
+        return a + b"\xe9" + b
+    if sp == "utf8":
+        return a + "é".encode("utf-8") + b
+    if sp == "bad8":
+        return a + b"\xff" + b
+    if sp == "ew-b":
+        return b"=?utf-8?B?" + base64.b64encode(a + "é".encode("utf-8") + b) + b"?="
+    if sp == "ew-q":
+        return b"=?iso-8859-1?Q?" + a + b"=E9" + b + b"?="
+    if sp == "ew-unk":
+        return b"=?x-verif-unknown?Q?" + a + b"=E9?="
+    if sp == "ew-bad":
+        return b"=?utf-8?B?" + a + b"@@?="
+    if sp == "ew-surr":
+        return b"=?utf-8?Q?" + a + b"=ED=A0=80?="
+    if sp == "fold":
+        return a + le + b" " + b
+    if sp == "empty":
+        return b""
+    if sp == "nul":
+        return a + b"\x00" + b
+    if sp == "marker":
+        return b"_type"
+    raise ValueError(sp)
+
+
+def hdr_message(g):
+    """the raw message of a "hdr" case (without mbox envelope)"""
+    le = {"lf": b"\n", "crlf": b"\r\n"}[g.get("le", "lf")]
+    tok = g["tok"]
+    top = [[k, [v.encode("ascii")]] for k, v in HDR_BASE]
+    part = [[k, [v.encode("ascii")]] for k, v in _HDR_PART_BASE]
+    multipart = False
+    for h, pos, sp in g.get("devs") or []:
+        if h not in HDR_POS:
+            raise ValueError(h)
+        is_part = h.startswith("part:")
+        multipart = multipart or is_part
+        hs, name = (part, h[5:]) if is_part else (top, h)
+        slot = [x for x in hs if x[0] == name]
+        if pos is None:
+            if sp == "absent":
+                hs[:] = [x for x in hs if x[0] != name]
+            elif sp == "twice":
+                if not slot:
+                    hs.append([name, [dict(HDR_POS[h])[HDR_POS[h][0][0]].replace("{}", tok[0]).encode("ascii")]])
+                    slot = [hs[-1]]
+                slot[0][1] = slot[0][1] * 2
+            else:
+                raise ValueError(sp)
+            continue
+        tpl = dict(HDR_POS[h])[pos].encode("ascii")
+        val = tpl.replace(b"{}", hdr_spelling(sp, tok, le))
+        if slot:
+            slot[0][1] = [val]
+        else:
+            hs.append([name, [val]])
+
+    def lines(hs):
+        return b"".join(k.encode("ascii") + b":" + (b" " + v if v else b"") + le for k, vs in hs for v in vs)
+    body = tok[0].encode("ascii") + b" body " + tok[1].encode("ascii") + le
+    if not multipart:
+        return lines(top) + le + body
+    ct = [x for x in top if x[0] == "Content-Type"]
+    text_ct = ct[0][1] if ct else []
+    top = [x for x in top if x[0] not in ("Content-Type", "Content-Transfer-Encoding")]
+    bnd = b"verifbnd01"
+    out = lines(top) + b"Content-Type: multipart/mixed; boundary=\"" + bnd + b"\"" + le + le
+    out += b"--" + bnd + le + lines([["Content-Type", text_ct], ["Content-Transfer-Encoding", [b"7bit"]]]) + le + body
+    out += b"--" + bnd + le + lines(part) + le + b"AP9/" + le + b"--" + bnd + b"--" + le
+    return out
+
+
+def _render_hdr(g):
+    msg = hdr_message(g)
+    if g["kind"] == "eml":
+        return "c05.eml", msg
+    if g["kind"] == "mbox":
+        le = {"lf": b"\n", "crlf": b"\r\n"}[g.get("le", "lf")]
+        return "c05.mbox", b"From sender@verif.example Tue Mar  5 14:07:09 2024" + le + msg + le
+    raise ValueError(g["kind"])
+
+
+def header_single_devs():
+    """every (header, position, spelling) and every (header, None, absent | twice)"""
+    out = []
+    for h in HDR_NAMES:
+        for pos, _ in HDR_POS[h]:
+            for sp in HDR_SPELL:
+                out.append([h, pos, sp])
+        for sp in HDR_PSEUDO:
+            out.append([h, None, sp])
+    return out
+
+
+def header_cases(tier, seed):
+    """Bounded-exhaustive header spellings as extraction inputs ("hdr" cases), kinds eml and mbox.
+    quick:    every single deviation (header x position x spelling, header x {absent, twice}), line end LF
+    thorough: the same with line end CRLF as well, plus every unordered pair of (header, position) slots of two different headers,
+              both in the same spelling of HDR_PAIR_SPELL (line end LF)"""
+    tk = Tokens(seed)
+    tok = [tk.new("X"), tk.new("X")]
+    out = []
+    singles = header_single_devs()
+    for kind in EDGE_MAIL_KINDS:
+        for le in (["lf"] if tier == "quick" else ["lf", "crlf"]):
+            for d in singles:
+                out.append((kind, {"fmt": "hdr", "kind": kind, "devs": [list(d)], "tok": list(tok), "le": le}))
+        if tier != "quick":
+            slots = [(h, pos) for h in HDR_NAMES for pos, _ in HDR_POS[h]]
+            for i, (h1, p1) in enumerate(slots):
+                for h2, p2 in slots[i + 1:]:
+                    if h1 == h2:
+                        continue
+                    for sp in HDR_PAIR_SPELL:
+                        out.append((kind, {"fmt": "hdr", "kind": kind, "devs": [[h1, p1, sp], [h2, p2, sp]], "tok": list(tok), "le": "lf"}))
+    return out
+
+
 def mail_cases(seed):
     tk = Tokens(seed)
     small_txt = {"fmt": "txt", "doc": ["doc", {}, [["unit", [["p", [["t", tk.new("B")]]]], {}]]], "images": {}, "opts": {}}
@@ -451,6 +612,8 @@ def render(case):
     fmt = case["fmt"]
     if fmt == "raw":
         return "m.bin", bytes.fromhex(case["hex"])
+    if fmt == "hdr":
+        return _render_hdr(case)
     if fmt == "edge":
         text = edge_text(case)
         kind = case["kind"]
